@@ -962,7 +962,7 @@ func main() {
 	run := vx.Start("C07")
 	len2, len3 := 8, 5
 	if !run.Quick() {
-		len2, len3 = 10, 6
+		len2, len3 = 12, 7
 	}
 	inputs := append(seqs(2, len2), seqs(3, len3)...)
 	// longer, structured inputs (lengths the exhaustive part cannot reach): all-equal, alternating,
